@@ -401,6 +401,14 @@ pub fn roundtrip(ctx: &mut Ctx, floats: bool) {
     if floats {
         trees.extend(trees_up_to(3, &atoms_float_near()));
     }
+    // deeply nested programs (48 and 30 levels)
+    for d in [30usize, 48] {
+        let mut t = Tree::L(vec![if floats { Tree::F(1.5) } else { Tree::I(1) }]);
+        for k in 0..d {
+            t = if k % 2 == 0 { Tree::L(vec![t]) } else { Tree::L(vec![Tree::name("A"), t, Tree::B(true)]) };
+        }
+        trees.push(t);
+    }
     // wide lists (direct element counts around 10, 16, 32, 100), also nested
     for n in [9usize, 10, 11, 12, 16, 17, 33, 100, 101] {
         let leaf = |k: usize| if floats { Tree::F(k as f32 + 0.5) } else { Tree::I(k as i32) };
